@@ -1534,16 +1534,23 @@ class EBPF(EBPFBase):
         self.owners |= registers
         save = []
         with ExitStack() as exitStack:
+            # park only in registers which survive a function call
+            clobbered = set(range(6)) - self.owners
+            self.owners |= clobbered
             for i in registers:
                 if i in oldowners:
                     tmp = exitStack.enter_context(self.get_free_register(None))
                     self.append(Opcode.MOV+Opcode.LONG+Opcode.REG,
                                 tmp, i, 0, 0)
                     save.append((tmp, i))
+            self.owners -= clobbered
             yield
             for tmp, i in save:
                 self.append(Opcode.MOV+Opcode.LONG+Opcode.REG, i, tmp, 0, 0)
             self.owners -= registers
+        # whatever had a value before has it again: it was either restored
+        # or is the destination the caller reserved for the result
+        self.owners |= oldowners
 
     @contextmanager
     def get_stack(self, size):
